@@ -213,7 +213,33 @@ def validate_file(work, module, cfg, path, timeout=1200, heap='3g', env=None, st
                 distinct=r['distinct'], wall=r['wall'], notes=notes)
 
 
+SPLIT_BYTES = 12 << 20      # TLC holds a whole file as TLA+ values (x20..40 in memory): keep files small
+
+
+def split_big(d):
+    """Split every shard larger than SPLIT_BYTES into parts at history boundaries (a history starts with
+    op "new"); history numbers are kept, so rejections are attributed exactly as before."""
+    for f in sorted(os.listdir(d)):
+        p = os.path.join(d, f)
+        if not (f.startswith('shard-') and f.endswith('.ndjson')) or '-part' in f or os.path.getsize(p) <= SPLIT_BYTES:
+            continue
+        k, size, out = 0, 0, None
+        with open(p) as src:
+            for line in src:
+                if out is None or (size > SPLIT_BYTES and '"op":"new"' in line):
+                    if out:
+                        out.close()
+                    out = open(os.path.join(d, '%s-part%04d.ndjson' % (f[:-7], k)), 'w')
+                    k, size = k + 1, 0
+                out.write(line)
+                size += len(line)
+        if out:
+            out.close()
+        os.remove(p)
+
+
 def validate_dir(work, module, cfg, d, timeout=1200, heap='3g', env=None, jobs=None, stack='64m'):
+    split_big(d)
     files = sorted(os.path.join(d, f) for f in os.listdir(d) if f.startswith('shard-') and f.endswith('.ndjson'))
     t0 = time.time()
     with cf.ThreadPoolExecutor(max_workers=jobs or NCPU) as ex:
